@@ -107,6 +107,14 @@ func Back(s seq.Sequence, withQ bool) Rec {
 // ReadAll reads every record; it stops at the first error (io.EOF is success)
 // and never makes more than limit calls.
 func ReadAll(rd seqio.Reader, withQ bool, limit int) (recs []Rec, calls int, err error) {
+	// The records are looked at only after the last Read returned: a caller that
+	// collects a file must not find an earlier record changed by a later Read.
+	var seqs []seq.Sequence
+	defer func() {
+		for _, s := range seqs {
+			recs = append(recs, Back(s, withQ))
+		}
+	}()
 	for calls < limit {
 		calls++
 		s, e := rd.Read()
@@ -119,7 +127,7 @@ func ReadAll(rd seqio.Reader, withQ bool, limit int) (recs []Rec, calls int, err
 		if s == nil {
 			return recs, calls, fmt.Errorf("nil sequence with nil error")
 		}
-		recs = append(recs, Back(s, withQ))
+		seqs = append(seqs, s)
 	}
 	return recs, calls, fmt.Errorf("no io.EOF within %d calls", limit)
 }
